@@ -524,6 +524,10 @@ def rule_r10(ctx):
     for name in ("nni_lmq_flush", "nni_lmq_fini"):
         f = prog.need(name, "core/lmq.c")
         frees = [c for c in f.calls(("nni_msg_free",))]
+        if not frees and name != "nni_lmq_flush" and any(True for _ in f.calls("nni_lmq_flush")):
+            n += 1
+            r.ob(f, "drains through nni_lmq_flush")
+            continue
         if not frees:
             raise AnalysisBroken("%s no longer releases the queued messages" % name)
         n += 1
